@@ -77,7 +77,9 @@ func (n *BaseStatNode) AvgRT() float64 {
 	if complete <= 0 {
 		return float64(0.0)
 	}
-	return float64(n.metric.GetSum(base.MetricEventRt) / complete)
+	// divide as floats: the integer quotient drops the fraction (43ms/4 = 10, not 10.75), and an
+	// average-RT system rule with a trigger in between was never reached
+	return float64(n.metric.GetSum(base.MetricEventRt)) / float64(complete)
 }
 
 func (n *BaseStatNode) MinRT() float64 {
